@@ -46,23 +46,38 @@ def orbit(case, sx, sy):
     """iterate one period; returns array (steps+1, 2) of centroids in physical coordinates"""
     s = S()
     n, it, steps = case["n"], case["it"], case["steps"]
-    s.reset(n, 1)
+    # "the centre of charge of ANY distribution": also of a bunch that is not the first one of a train (the orbit of the
+    # last bunch is the one that is judged; for a single bunch that is the only one)
+    nb = case.get("nb", 1)
+    s.reset(n, nb)
     L = case["L"]
     delta = 2 * L / (n - 1)
     qc, pc = -sx * delta, -sy * delta
-    a = s.ps_new(qc - L, qc + L, pc - L, pc + L, qscale=1.2e-3, pscale=6.11e5)
-    b = s.ps_new(qc - L, qc + L, pc - L, pc + L, qscale=1.2e-3, pscale=6.11e5)
+    fill = np.full(nb, 1.0 / nb, np.float32)
+    a = s.ps_new(qc - L, qc + L, pc - L, pc + L, qscale=1.2e-3, pscale=6.11e5, filling=fill)
+    b = s.ps_new(qc - L, qc + L, pc - L, pc + L, qscale=1.2e-3, pscale=6.11e5, filling=fill)
     q = s.ps_get(a, "axis0").astype(np.float64)
     p = s.ps_get(a, "axis1").astype(np.float64)
-    s.ps_data(a)[0] = density(case, q, p).astype(np.float32)
+    dens = density(case, q, p).astype(np.float32)
+    for bb in range(nb):
+        s.ps_data(a)[bb] = dens * np.float32(bb + 1)
     theta = np.float32(2 * np.pi / steps)
-    rf = s.map_rf_linear(a, b, float(theta), 5e8, it)
+    if case.get("sin"):
+        # sinusoidal RF model: kick = revolutionpart*(-V sin(q*bl2phase))/(energy per cell), bl2phase = 2 pi f_RF * (metres per
+        # natural length)/c; V chosen such that the linearised kick is the same rotation angle (q*bl2phase <= 0.03 here, so the
+        # cubic term is below 2e-4 relative: "for small amplitudes")
+        frf, qscale, pscale, revpart = 5e8, 1.2e-3, 6.11e5, 1e-3
+        bl2phase = 2 * np.pi * frf * qscale / 2.99792458e8
+        V = float(np.tan(theta)) * pscale / (revpart * bl2phase)
+        rf = s.map_rf_sin(a, b, revpart, V, frf, 0.0, it)
+    else:
+        rf = s.map_rf_linear(a, b, float(theta), 5e8, it)
     dr = s.map_drift(b, a, [float(theta), 0.0, 0.0], 1.3e9, it)
-    out = [centroid(s.ps_data(a)[0], q, p)]
+    out = [centroid(s.ps_data(a)[nb - 1], q, p)]
     for k in range(steps):
         s.map_apply(rf)
         s.map_apply(dr)
-        out.append(centroid(s.ps_data(a)[0], q, p))
+        out.append(centroid(s.ps_data(a)[nb - 1], q, p))
     return np.array(out), float(theta)
 
 
@@ -97,7 +112,7 @@ def judge(xs, theta, steps, cls, nontriv, extra=0.0, tag="api"):
 def run_api(case):
     xs, theta = orbit(case, case["sx"], case["sy"])
     steps, it = case["steps"], case["it"]
-    cls = ["it%d" % it, "shiftx" if case["sx"] else "noshiftx", "shifty" if case["sy"] else "noshifty"]
+    cls = ["it%d" % it, "shiftx" if case["sx"] else "noshiftx", "shifty" if case["sy"] else "noshifty", "nb%d" % case.get("nb", 1), "rf_sin" if case.get("sin") else "rf_lin"]
     r0 = np.linalg.norm(xs[0])
     nontriv = bool(r0 >= 0.2)
     o = judge(xs, theta, steps, cls, nontriv)
@@ -169,8 +184,14 @@ def api_cases(draw):
 
     def shift():
         return float(draw(st.integers(-ms, ms))) if draw(st.booleans()) else (gen.f32(draw(st.floats(-ms, ms))) if draw(st.booleans()) else 0.0)
-    return limit_diffusion(dict(n=n, L=L, it=it, steps=draw(st.integers(20, 400)), sx=shift(), sy=shift(), sx2=shift(), sy2=shift(),
-                                gauss=draw(gaussians(L, n, it, ms))), ms)
+    c = limit_diffusion(dict(n=n, L=L, it=it, steps=draw(st.integers(20, 400)), sx=shift(), sy=shift(), sx2=shift(), sy2=shift(),
+                             gauss=draw(gaussians(L, n, it, ms))), ms)
+    nb = draw(st.sampled_from([1, 1, 1, 2, 3]))
+    if nb > 1:
+        c["nb"] = nb
+    if draw(st.integers(0, 3)) == 0:
+        c["sin"] = True
+    return c
 
 
 # ------------------------------------------------------------------ CLI
